@@ -207,6 +207,36 @@ def occsOf : List Item → List Occ
 /-- a word that is neither option syntax nor the terminator -/
 def PlainWord (w : Bytes) : Prop := argumentIsOption w = false ∧ w ≠ B "--"
 
+/-- a token the loop passes through to the positional binder: a plain word, or - under IgnoreUnknown -
+    a long option that is not in scope -/
+def PassedToken (P : Parser) (ci : Nat) (w : Bytes) : Prop :=
+  PlainWord w ∨ (P.opts.ignoreUnknown = true ∧ ∃ n a, w = longToken n a ∧ TypableLong n ∧ P.lookupLong ci n = none)
+
+theorem PassedToken.of_sameDecl {P Q : Parser} (h : SameDecl P Q) (ci : Nat) (w : Bytes) (hp : PassedToken P ci w) :
+    PassedToken Q ci w := by
+  rcases hp with hp | ⟨hi, n, a, hw, ht, hl⟩
+  · exact Or.inl hp
+  · exact Or.inr ⟨by rw [← h.opts]; exact hi, n, a, hw, ht, by rw [← h.lookupLong]; exact hl⟩
+
+/-- **An unknown option under IgnoreUnknown is one `addArgs` of the token itself**: it is handed,
+    verbatim, to the positional binder, and the loop goes on. -/
+theorem parseLoop_ignored_unknown (E : Env) (help : HelpFn) (fuel : Nat) (s : PS) (n : Bytes) (a : Option Bytes)
+    (rest : List Bytes) (ht : TypableLong n) (hargs : s.args = longToken n a :: rest)
+    (hl : s.P.lookupLong s.cmd n = none) (hi : s.P.opts.ignoreUnknown = true) :
+    parseLoop E help (fuel + 1) s =
+      parseLoop E help fuel (({ s with arg := longToken n a, args := rest } : PS).addArgs E [longToken n a]).1 := by
+  rw [parseLoop_long_token E help fuel s n a rest ht hargs]
+  have hpl : parseLong E help { s with arg := longToken n a, args := rest } n a =
+      ({ s with arg := longToken n a, args := rest }, some (.flags .unknownFlag (B "unknown flag `" ++ n ++ B "'"))) := by
+    unfold parseLong
+    have : ({ s with arg := longToken n a, args := rest } : PS).P.lookupLong ({ s with arg := longToken n a, args := rest } : PS).cmd n = none := hl
+    simp only [this]
+  rw [hpl]
+  simp only
+  have hpol : unknownPolicyStops s.P (.flags .unknownFlag (B "unknown flag `" ++ n ++ B "'")) = false := by
+    simp [unknownPolicyStops, GoErr.isUnknownFlag, hi]
+  simp only [hpol, Bool.false_eq_true, if_false, hi, if_true]
+
 /-- **One plain word is one `addArgs`** when the command reached has no subcommands and
     PassAfterNonOption is off: the loop hands the word to the positional binder and goes on. -/
 theorem parseLoop_plain_word (E : Env) (help : HelpFn) (fuel : Nat) (s : PS) (w : Bytes) (rest : List Bytes)
@@ -248,7 +278,7 @@ structure ItemsOK (s : PS) (items : List Item) : Prop where
   pa : s.P.opts.passAfterNonOption = false
   subs : s.P.subs s.cmd = []
   occs : ∀ it ∈ occsOf items, OccOK s.P s.cmd it
-  words : ∀ w ∈ wordsOf items, PlainWord w
+  words : ∀ w ∈ wordsOf items, PassedToken s.P s.cmd w
 
 theorem ItemsOK.step {s s' : PS} {it : Item} {rest : List Item} (h : ItemsOK s (it :: rest))
     (hcmd : s'.cmd = s.cmd) (hd : SameDecl s'.P s.P) : ItemsOK s' rest := by
@@ -259,6 +289,8 @@ theorem ItemsOK.step {s s' : PS} {it : Item} {rest : List Item} (h : ItemsOK s (
     apply h.occs
     cases it <;> simp [occsOf, ho]
   · intro w hw
+    rw [hcmd]
+    apply PassedToken.of_sameDecl hd.symm
     apply h.words
     cases it <;> simp [wordsOf, hw]
 
@@ -312,16 +344,26 @@ theorem parseLoop_of_items (E : Env) (help : HelpFn) (items : List Item) :
       | word w =>
         have hw := hok.words w (by simp [wordsOf])
         have hargs' : s.args = w :: renderItems rest := by simpa [renderItems, Item.render] using hargs
-        rw [parseLoop_plain_word E help fuel s w (renderItems rest) hw hargs' hok.pa hok.subs]
+        have hstep : (parseLoop E help (fuel + 1) s =
+            (match ({ s with arg := w, args := renderItems rest } : PS).addArgs E [w] with
+            | (s', some _) => s'
+            | (s', none) => parseLoop E help fuel s')) ∨
+            parseLoop E help (fuel + 1) s = parseLoop E help fuel (({ s with arg := w, args := renderItems rest } : PS).addArgs E [w]).1 := by
+          rcases hw with hw | ⟨hi, n, a, rfl, ht, hl⟩
+          · exact Or.inl (parseLoop_plain_word E help fuel s w (renderItems rest) hw hargs' hok.pa hok.subs)
+          · exact Or.inr (parseLoop_ignored_unknown E help fuel s n a (renderItems rest) ht hargs' hl hi)
         unfold applyItems at hres ⊢
         have hfr := addArgs_frame E { s with arg := w, args := renderItems rest } [w]
         have hd := addArgs_decl E { s with arg := w, args := renderItems rest } [w]
-        generalize ({ s with arg := w, args := renderItems rest } : PS).addArgs E [w] = res at hfr hd hres ⊢
+        generalize ({ s with arg := w, args := renderItems rest } : PS).addArgs E [w] = res at hfr hd hres hstep ⊢
         obtain ⟨s', e⟩ := res
         cases e with
         | some e => simp at hres
         | none =>
-          simp only at hres hfr hd ⊢
+          simp only at hres hfr hd hstep ⊢
+          have hgo : parseLoop E help (fuel + 1) s = parseLoop E help fuel s' := by
+            rcases hstep with h | h <;> exact h
+          rw [hgo]
           exact ih fuel s' (by simp at hf; omega) hfr.1 (hok.step hfr.2 hd) hres
 
 /-- **Options interleaved between the words do not disturb the positional binding**: as far as
